@@ -29,6 +29,7 @@ structure Sketch (α : Type) where
   n : Nat
   numRetained : Nat
   levels : List (Level α)
+  deriving DecidableEq
 
 variable {α ρ β : Type}
 
